@@ -173,6 +173,12 @@ def constructed(rng):
             x = rng.randrange(-M, M + 1)
             add(G.fD(x, t), G.fD(P10[s], s))
             add(G.fD(x, t), G.fD(-P10[s], s))
+        for w in G.trunc_twins(rng, rng.choice((P10[s], -P10[s], 0)))[::2]:
+            # agrees with one / zero in its low 32 / 64 / 96 bits only
+            xs = rng.choice((3, -7, rng.randrange(-10 ** 6, 10 ** 6) or 1))
+            tt = rng.randrange(0, 19)
+            add(G.fD(xs, tt), G.fD(w, s))
+            add(G.fD(w, s), G.fD(xs, tt))
         add(G.fD(0, s), G.fD(rng.randrange(1, 999), rng.randrange(0, 19)))
         add(G.fD(rng.randrange(1, 999), rng.randrange(0, 19)), G.fD(0, s))
         add(G.fD(0, s), G.fD(0, rng.randrange(0, 19)))
